@@ -68,7 +68,7 @@ fn check_roundtrip(ctx: &mut Ctx, path: &str, items: &[SItem], text: &str, is: &
 pub fn run(ctx: &mut Ctx) {
     let (mut is, names) = new_iset();
     let cache = sorted_cache(&is);
-    let n = ctx.n(12000, 300000);
+    let n = ctx.n(40000, 1000000);
     for k in 0..n as u64 {
         if !ctx.mine(k) {
             continue;
@@ -118,7 +118,7 @@ pub fn run(ctx: &mut Ctx) {
         }
     }
     // trees from pushr's own generator
-    let ng = ctx.n(3000, 60000);
+    let ng = ctx.n(10000, 200000);
     for k in 0..ng as u64 {
         if !ctx.mine(k) {
             continue;
